@@ -49,6 +49,7 @@ const (
 	AFeedHoldReply // the reader reads call C's reply, looks up its waiter and is parked before handing it over
 	AFeedHoldStray // the same for a frame with wire id Wid
 	AReaderGo      // the parked reader goes on
+	AFeedSplitReply // TCP: call C's reply arrives in two pieces (the body is cut; the reader has consumed the first piece)
 )
 
 type Action struct {
@@ -130,6 +131,8 @@ func (a Action) Coq() string {
 		return hx.App("AFeedHold", hx.App("FStray", hx.Ni(int(a.Wid)), hx.Ni(a.Tag)))
 	case AReaderGo:
 		return "AReaderGo"
+	case AFeedSplitReply:
+		return hx.App("AFeedSplit", hx.App("FReply", c, hx.Ni(a.Tag)))
 	}
 	return "?"
 }
@@ -484,7 +487,7 @@ func (v *View) applicable0(a Action) bool {
 		return v.In(a.C, csDone) && known && (!v.QidForced || widFree(v.Wid[a.C], a.C))
 	case AFeedHoldReply:
 		return v.applicable0(Action{K: AFeedReply, C: a.C, Tag: a.Tag})
-	case AFeedEofReply:
+	case AFeedEofReply, AFeedSplitReply:
 		return v.TCP && v.applicable0(Action{K: AFeedReply, C: a.C, Tag: a.Tag})
 	case AFeedStray, AFeedHoldStray:
 		return !v.Closed && !v.ReadErr && widFree(a.Wid, -1)
@@ -790,6 +793,20 @@ func Run(s Script, next func(v *View) *Action) (Script, []Obs, Final) {
 				}
 				pendingReplied = -1
 			}
+			idleSeen++
+			fc.waitIdle(idleSeen, waitReturn)
+		case AFeedSplitReply:
+			if cr.st == csInWrite || cr.st == csHeld || cr.st == csWaiting {
+				cr.replied = true
+			}
+			fr := replyFrame(s.TCP, cr.wid, a.Tag)
+			cut := 2 + (len(fr)-2)/2 // header and half of the body
+			fc.feed(fr[:cut])
+			idleSeen++
+			fc.waitIdle(idleSeen, waitReturn) // the reader has taken the first piece and waits for more
+			fc.feed(fr[cut:])
+			frameAfterSend = true
+			staleWaiting = false
 			idleSeen++
 			fc.waitIdle(idleSeen, waitReturn)
 		case AFeedEofReply:
